@@ -3,6 +3,7 @@ package stanza
 import (
 	"encoding/xml"
 	"errors"
+	"strconv"
 	"sync"
 )
 
@@ -197,8 +198,15 @@ func (SMFailed) Name() string {
 func (smf *SMFailed) UnmarshalXML(d *xml.Decoder, start xml.StartElement) error {
 	smf.XMLName = start.Name
 
-	// According to https://xmpp.org/rfcs/rfc3920.html#def we should have no attributes aside from the namespace
-	// which we don't use internally
+	// The only attribute defined by XEP-0198 on <failed/> is the optional count of handled stanzas
+	for _, attr := range start.Attr {
+		if attr.Name.Local == "h" {
+			if v, err := strconv.ParseUint(attr.Value, 10, 0); err == nil {
+				h := uint(v)
+				smf.H = &h
+			}
+		}
+	}
 
 	// decode inner elements
 	for {
